@@ -482,7 +482,13 @@ fn run_signature(rep: &mut Report) {
     }
 }
 
+/// Names that are used both for tables and for streams in the histories.
+const SHARED_NAMES: [&str; 5] = ["Icon", "Bin1", "UserTab", "a", "B_1"];
+
 fn random_name(rng: &mut Rng) -> String {
+    if rng.chance(1, 8) {
+        return rng.pick(&SHARED_NAMES).to_string();
+    }
     let len = 1 + rng.usize(6);
     (0..len).map(|_| if rng.chance(1, 3) { *rng.pick(&ALPHABET) } else { *rng.pick(&['a', 'B', '1', '.', '_', 'é', ' ', '-']) }).collect()
 }
@@ -495,9 +501,36 @@ fn run_history(rep: &mut Report, seed: u64, case: u64) {
     let sizes = [0usize, 1, 100, 4095, 4096, 4097, 8192, 8193, 70_000];
     let n_ops = 10 + rng.usize(25);
     let mut key = 10;
+    let mut tables: Vec<String> = vec!["UserTab".to_string()];
     for _ in 0..n_ops {
         let live: Vec<String> = b.model.keys().cloned().collect();
-        let res: Result<(), Fail> = match rng.below(10) {
+        let res: Result<(), Fail> = match rng.below(12) {
+            10 => {
+                // a table that shares its name with a stream (tables and streams are separate name spaces)
+                let n = rng.pick(&SHARED_NAMES).to_string();
+                log.push(format!("create table {:?} (+ stream of the same name)", n));
+                let r = guarded(|| b.pkg.as_mut().unwrap().create_table(n.clone(), vec![msi::Column::build("K").primary_key().int16(), msi::Column::build("V").nullable().string(0)]));
+                match r {
+                    Ok(res) => {
+                        if res.is_ok() {
+                            tables.push(n.clone());
+                            let _ = guarded(|| b.pkg.as_mut().unwrap().insert_rows(msi::Insert::into(n.clone()).row(vec![msi::Value::Int(1), msi::Value::from("t0x2 r")])));
+                        }
+                        let d = b.payload(100);
+                        b.rebase().and_then(|_| b.write(&n, &d, rep)).and_then(|_| b.verify(&format!("after create_table({:?}) and write_stream of the same name", n), rep))
+                    }
+                    Err(p) => Err(fail(format!("panic/{}", p.signature()), p.message)),
+                }
+            }
+            11 if !tables.is_empty() => {
+                let n = tables.remove(rng.usize(tables.len()));
+                log.push(format!("drop table {:?}", n));
+                let r = guarded(|| b.pkg.as_mut().unwrap().drop_table(&n));
+                match r {
+                    Ok(_) => b.rebase().and_then(|_| b.verify(&format!("after drop_table({:?})", n), rep)),
+                    Err(p) => Err(fail(format!("panic/{}", p.signature()), p.message)),
+                }
+            }
             0..=3 => {
                 let n = random_name(&mut rng);
                 let sz = if rng.chance(1, 12) { sizes[8] } else { sizes[rng.usize(8)] };
